@@ -225,11 +225,14 @@ def operand_forms() -> List[Tuple[str, Callable[[str], SymStr], Callable[[Dict[s
         if dre:
             forms.append((f"mem-bc{dname}", lambda k, d=d: d(k) + "(," + var(f"b{k}", REG) + "," + var(f"c{k}", "[1248]") + ")",
                           lambda k, dk=dk: f"[+‹b{k}›*‹c{k}›{dk(k)}]"))
+        # 16-bit addressing (addr16 prefix / i8086 code): base and index without a scale, (a,b) and k(a,b)
+        forms.append((f"mem-ab{dname}", lambda k, d=d: d(k) + "(" + var(f"a{k}", REG) + "," + var(f"b{k}", REG) + ")",
+                      lambda k, dk=dk: f"[‹a{k}›+‹b{k}›{dk(k)}]"))
     forms.append(("target", lambda k: var(f"t{k}", H + "+"), lambda k: f"‹t{k}›"))
     return forms
 
 
-QUICK_FORMS = ["imm", "reg", "mem-abck", "mem-abc", "mem-bcnk", "mem-ak", "mem-a", "target"]
+QUICK_FORMS = ["imm", "reg", "mem-abck", "mem-abc", "mem-bcnk", "mem-ak", "mem-a", "mem-abk", "target"]
 
 
 def _split_scenarios():
@@ -778,7 +781,17 @@ def split_concrete():
             got = repr(e)
         obs.append(simple_ob(f"parse_line:limit-line:{tag}:POST", LP + ".parse_line", "POST",
                              f"line at a limit of the grammar ({tag}) decodes to {str(want)[:120]}", got == want, ["C08", "C16", "C10", "C09"],
-                             detail=repr(got)[:300], witness=f"{line[:80]!r}... -> {str(got)[:120]}"))
+                             detail=repr(got)[:300], witness=f"{line[:80]!r}... -> {str(got)[:120]}", replay={"kind": "line", "line": line}))
+    from vf.sweeps import other_lines
+    for tag, line in other_lines():
+        try:
+            r = J.lp.parse_line(line)
+            ok, got = not isinstance(r, J.gd.Instruction), type(r).__name__
+        except Exception as e:  # noqa
+            ok, got = False, repr(e)
+        obs.append(simple_ob(f"parse_line:other-line:{tag}:POST", LP + ".parse_line", "POST",
+                             f"a non-instruction line ({tag}) is read as text, not as a pattern: no failure, no instruction", ok, ["C08", "C16"],
+                             detail=got[:200], witness=f"{line[:60]!r} -> {got[:80]}", replay={"kind": "line", "line": line, "instruction": False}))
     # normal form of every memory text (as the operand of an lea line, through parse_line)
     for m in mems:
         line = f"  401000:\t48 8d 04 00          \tlea    {m},%rsi"
